@@ -21,7 +21,7 @@ impl Prop for C01 {
     }
     fn runs(&self, tier: Tier) -> u64 {
         match tier {
-            Tier::Quick => 40_000,
+            Tier::Quick => 12_000,
             Tier::Thorough => 1_000_000,
         }
     }
@@ -63,10 +63,45 @@ impl Prop for C01 {
         case
     }
     fn check(&self, case: &Case, want_sample: bool) -> RunOut {
-        let mut st = match Stepper::new(&case.cfg, &case.files, Mode::Ticking) {
+        let mut st = match Stepper::new_filtered(&case.cfg, &case.files, Mode::Ticking) {
             Ok(s) => s,
             Err(_) => return RunOut::skip("parser-rejected"),
         };
+        // precondition of the property: every pressed key is eventually released, virtual keys
+        // operated over TCP are balanced
+        {
+            let mut down: Vec<u16> = vec![];
+            let mut vdown: Vec<&str> = vec![];
+            for op in &case.ops {
+                match op {
+                    Op::Press(c) => {
+                        if down.contains(c) || is_wheel_code(*c) {
+                            return RunOut::skip("history-not-consistent");
+                        }
+                        down.push(*c)
+                    }
+                    Op::Release(c) => {
+                        if !down.contains(c) {
+                            return RunOut::skip("history-not-consistent");
+                        }
+                        down.retain(|x| x != c)
+                    }
+                    Op::Repeat(c) => {
+                        if !down.contains(c) || is_mouse_btn_code(*c) {
+                            return RunOut::skip("history-not-consistent");
+                        }
+                    }
+                    Op::Vkey(n, 0) => vdown.push(n),
+                    Op::Vkey(n, 1) => vdown.retain(|x| x != n),
+                    Op::Vkey(_, 3) => return RunOut::skip("history-not-consistent"),
+                    _ => {}
+                }
+            }
+            if !down.is_empty() || !vdown.is_empty() {
+                return RunOut::skip("history-not-consistent");
+            }
+        }
+        st.track_custom = true;
         st.run_ops(&case.ops);
         let mut o = RunOut::pass();
         fault_counts(&mut o, &case.ops);
@@ -82,10 +117,29 @@ impl Prop for C01 {
         // quiescence: no input for Q ms
         let q = quiescence_bound(&case.cfg, &case.ops).min(400_000);
         let t_end_inputs = st.now;
-        st.gap(q);
+        // sample the engine at 4 points of the quiescence window: a self re-triggering action
+        // (an action that re-queues itself through the action queue every few ticks) shows as a
+        // constant non-empty input queue with the action queue / waiting state busy throughout
+        let mut samples: Vec<(usize, bool)> = vec![];
+        for _ in 0..4 {
+            st.gap(q / 4);
+            let l = st.k.layout.b();
+            let mut busy = false;
+            // look at a few consecutive ticks because the cycle alternates
+            let qlen = l.queue.len();
+            busy |= !l.action_queue.is_empty() || l.waiting.is_some();
+            for _ in 0..4 {
+                st.gap(1);
+                let l = st.k.layout.b();
+                busy |= !l.action_queue.is_empty() || l.waiting.is_some();
+            }
+            samples.push((qlen, busy));
+        }
+        let self_retrigger = samples.iter().all(|(ql, b)| *ql > 0 && *b) && samples.iter().all(|(ql, _)| *ql == samples[0].0);
         let t_q = st.now;
         let d = st.down_set();
         let idle = st.k.is_idle();
+        let breakdown = idle_breakdown(&st.k);
         let can_block = st.k.can_block_update_idle_waiting(1);
         st.gap(TAIL_E);
         st.finish();
@@ -95,11 +149,36 @@ impl Prop for C01 {
         probes_into(&mut o, &st.probes, &st.trace);
         let late: Vec<&OutEv> = st.trace.outs.iter().filter(|e| e.t > t_q).collect();
         let cont = continuous_outputs_in(&st.trace.outs, t_q.saturating_sub(TAIL_E.min(q)), t_q + TAIL_E + 1);
-        let tags = vec![];
+        let mut tags: Vec<String> = vec![];
+        for (needle, tag) in [("(defchords ", "cfg:defchords"), ("(defchordsv2", "cfg:defchordsv2"), ("defzippy", "cfg:defzippy"), ("defseq", "cfg:defseq"), ("rpt-any", "cfg:rpt-any")] {
+            if case.cfg.contains(needle) {
+                tags.push(tag.to_string());
+            }
+        }
+        for part in breakdown.split(',') {
+            if !part.starts_with("states=") && !part.is_empty() {
+                tags.push(format!("busy:{}", part.split(|c| c == '=' || c == '(').next().unwrap_or(part)));
+            }
+        }
+        if st.probes.max_queue >= 32 || st.probes.queue_full_on_event > 0 || o.counters.get("fault.burst_gt32_events_in_one_ms").copied().unwrap_or(0) > 0 {
+            tags.push("queue-overflow".into());
+        }
+        if st.probes.max_states >= 64 {
+            tags.push("states-full".into());
+        }
+        if st.probes.custom_events_collided > 0 {
+            tags.push("custom-events-collided".into());
+        }
+        if self_retrigger {
+            tags.push("self-retriggering-action".into());
+        }
+        if !d.is_empty() && d.keys.iter().all(|k| k.starts_with("code")) {
+            tags.push("stuck:custom-outputs-only".into());
+        }
         if !d.is_empty() {
             o.set_fail(
                 "C01:stuck-output",
-                format!("{} ms after the last input (Q={q}) the OS still has keys {:?} buttons {:?} down", t_q - t_end_inputs, d.keys, d.buttons),
+                format!("{} ms after the last input (Q={q}) the OS still has keys {:?} buttons {:?} down [{breakdown}]", t_q - t_end_inputs, d.keys, d.buttons),
                 tags.clone(),
             );
         } else if cont > 0 {
@@ -107,7 +186,7 @@ impl Prop for C01 {
         } else if !late.is_empty() {
             o.set_fail("C01:output-after-quiescence", format!("output after Q={q} ms of silence: {}", outs_short(&late.iter().map(|e| (*e).clone()).collect::<Vec<_>>())), tags.clone());
         } else if !idle {
-            o.set_fail("C01:not-idle", format!("is_idle() is false {q} ms after the last input"), tags.clone());
+            o.set_fail("C01:not-idle", format!("is_idle() is false {q} ms after the last input: {breakdown}"), tags.clone());
         } else if !can_block {
             o.set_fail("C01:cannot-block", format!("can_block_update_idle_waiting is false {q} ms after the last input although is_idle() is true"), tags.clone());
         }
